@@ -1,11 +1,21 @@
 import BM.Policy
+import BM.Sanitize
 import BM.Spec.Oracles
+import BM.Proofs.Rules
 /-
   C17: a policy is its rule set.  Proved on the builder model `applyOp`:
   * every switch-like option reflects its most recent setting (including the documented
     side effect on URL parsing);
   * rule-adding calls only grow what the policy allows (`allowsElement` is monotone);
   * `AllowElements` calls commute and are idempotent, names are case-insensitive (ASCII);
+  * **the rule tables are sets of contributions** (`C17_rule_tables`, from Proofs/Rules): after any
+    history of builder calls on an initialised policy, the element table, the element-scoped and
+    global attribute rules and the element-scoped and global style rules hold what they held
+    plus what each call contributes; hence the tables are the same for every permutation of the
+    history (`C17_order_independent`), only grow (`C17_accumulate`), and do not depend on the
+    spelling of names beyond `strings.ToLower` (`C17_case_independent`); the first pass of
+    `sanitizeAttrs` accepts an attribute on element rules iff some contributed rule accepts it
+    (`C17_accept_iff_contribution`);
   * policies are values: `applyOp` returns a new policy and cannot affect another one
     (trivial in the model; tied to the code by the interleaved-construction histories of
     the correspondence run).
@@ -164,5 +174,223 @@ example :
     let p := applyOp d (applyOp d {} (.allowElements [b!"B"])) (.allowElements [b!"i"])
     Spec.allowsElement p b!"b" = true ∧ Spec.allowsElement p b!"i" = true ∧ Spec.allowsElement p b!"u" = false := by
   decide
+
+/-! ### the rule tables as sets of contributions -/
+
+/-- the five tables a history of rule-adding calls fills, read as sets -/
+structure SameTables (p q : Policy) : Prop where
+  elemRules : ∀ el attr x, x ∈ p.elemRules el attr ↔ x ∈ q.elemRules el attr
+  globalRules : ∀ attr x, x ∈ p.globalRules attr ↔ x ∈ q.globalRules attr
+  hasElem : ∀ el, p.hasElem el ↔ q.hasElem el
+  elemStyleRules : ∀ el prop x, x ∈ p.elemStyleRules el prop ↔ x ∈ q.elemStyleRules el prop
+  globalStyleRules : ∀ prop x, x ∈ p.globalStyleRules prop ↔ x ∈ q.globalStyleRules prop
+
+/-- **C17, tables = start ∪ contributions**, for every history on an initialised policy -/
+theorem C17_rule_tables (p : Policy) (hi : p.initialized = true) (ops : List BuilderOp) :
+    (∀ el attr x, x ∈ (applyOps d p ops).elemRules el attr ↔
+        x ∈ p.elemRules el attr ∨ ∃ op ∈ ops, op.addsElemRule el attr x) ∧
+    (∀ attr x, x ∈ (applyOps d p ops).globalRules attr ↔
+        x ∈ p.globalRules attr ∨ ∃ op ∈ ops, op.addsGlobalRule attr x) ∧
+    (∀ el, (applyOps d p ops).hasElem el ↔ p.hasElem el ∨ ∃ op ∈ ops, op.addsElem el) ∧
+    (∀ el prop x, x ∈ (applyOps d p ops).elemStyleRules el prop ↔
+        x ∈ p.elemStyleRules el prop ∨ ∃ op ∈ ops, op.addsElemStyle d el prop x) ∧
+    (∀ prop x, x ∈ (applyOps d p ops).globalStyleRules prop ↔
+        x ∈ p.globalStyleRules prop ∨ ∃ op ∈ ops, op.addsGlobalStyle d prop x) :=
+  rules_applyOps d p hi ops
+
+/-- two histories with the same calls (as sets) give the same tables -/
+theorem sameTables_of_same_calls (p : Policy) (hi : p.initialized = true) (ops₁ ops₂ : List BuilderOp)
+    (h : ∀ op, op ∈ ops₁ ↔ op ∈ ops₂) : SameTables (applyOps d p ops₁) (applyOps d p ops₂) := by
+  obtain ⟨a1, g1, e1, s1, t1⟩ := rules_applyOps d p hi ops₁
+  obtain ⟨a2, g2, e2, s2, t2⟩ := rules_applyOps d p hi ops₂
+  have hex : ∀ Q : BuilderOp → Prop, (∃ op ∈ ops₁, Q op) ↔ (∃ op ∈ ops₂, Q op) := by
+    intro Q
+    constructor
+    · rintro ⟨op, hm, hq⟩; exact ⟨op, (h op).mp hm, hq⟩
+    · rintro ⟨op, hm, hq⟩; exact ⟨op, (h op).mpr hm, hq⟩
+  constructor
+  · intro el attr x; rw [a1, a2, hex]
+  · intro attr x; rw [g1, g2, hex]
+  · intro el; rw [e1, e2, hex]
+  · intro el prop x; rw [s1, s2, hex]
+  · intro prop x; rw [t1, t2, hex]
+
+/-- **C17, order independence of the rule tables**: any permutation of a history of builder calls
+    on an initialised policy fills the tables with the same rules -/
+theorem C17_order_independent (p : Policy) (hi : p.initialized = true) (ops₁ ops₂ : List BuilderOp)
+    (h : ops₁.Perm ops₂) : SameTables (applyOps d p ops₁) (applyOps d p ops₂) :=
+  sameTables_of_same_calls d p hi ops₁ ops₂ (fun _ => h.mem_iff)
+
+/-- repeating calls changes nothing in the tables read as sets (idempotence) -/
+theorem C17_repetition (p : Policy) (hi : p.initialized = true) (ops : List BuilderOp) :
+    SameTables (applyOps d p (ops ++ ops)) (applyOps d p ops) :=
+  sameTables_of_same_calls d p hi _ _ (fun op => by simp)
+
+/-- **C17, accumulation**: further calls never remove a rule or an element from the tables -/
+theorem C17_accumulate (p : Policy) (hi : p.initialized = true) (ops more : List BuilderOp) :
+    (∀ el attr x, x ∈ (applyOps d p ops).elemRules el attr → x ∈ (applyOps d p (ops ++ more)).elemRules el attr) ∧
+    (∀ attr x, x ∈ (applyOps d p ops).globalRules attr → x ∈ (applyOps d p (ops ++ more)).globalRules attr) ∧
+    (∀ el, (applyOps d p ops).hasElem el → (applyOps d p (ops ++ more)).hasElem el) ∧
+    (∀ el prop x, x ∈ (applyOps d p ops).elemStyleRules el prop →
+      x ∈ (applyOps d p (ops ++ more)).elemStyleRules el prop) ∧
+    (∀ prop x, x ∈ (applyOps d p ops).globalStyleRules prop →
+      x ∈ (applyOps d p (ops ++ more)).globalStyleRules prop) := by
+  obtain ⟨a1, g1, e1, s1, t1⟩ := rules_applyOps d p hi ops
+  obtain ⟨a2, g2, e2, s2, t2⟩ := rules_applyOps d p hi (ops ++ more)
+  have hex : ∀ Q : BuilderOp → Prop, (∃ op ∈ ops, Q op) → (∃ op ∈ ops ++ more, Q op) := by
+    rintro Q ⟨op, hm, hq⟩; exact ⟨op, List.mem_append_left _ hm, hq⟩
+  refine ⟨?_, ?_, ?_, ?_, ?_⟩
+  · intro el attr x hx
+    rw [a2]; rcases (a1 el attr x).mp hx with h | h
+    · exact .inl h
+    · exact .inr (hex _ h)
+  · intro attr x hx
+    rw [g2]; rcases (g1 attr x).mp hx with h | h
+    · exact .inl h
+    · exact .inr (hex _ h)
+  · intro el hx
+    rw [e2]; rcases (e1 el).mp hx with h | h
+    · exact .inl h
+    · exact .inr (hex _ h)
+  · intro el prop x hx
+    rw [s2]; rcases (s1 el prop x).mp hx with h | h
+    · exact .inl h
+    · exact .inr (hex _ h)
+  · intro prop x hx
+    rw [t2]; rcases (t1 prop x).mp hx with h | h
+    · exact .inl h
+    · exact .inr (hex _ h)
+
+/-- a builder call with every element / attribute / property name respelled by `f` -/
+def respell (f : Bytes → Bytes) : BuilderOp → BuilderOp
+  | .allowElements names => .allowElements (names.map f)
+  | .allowAttrs names re ae (.onElements els) => .allowAttrs (names.map f) re ae (.onElements (els.map f))
+  | .allowAttrs names re ae scope => .allowAttrs (names.map f) re ae scope
+  | .allowStyles names m (.onElements els) => .allowStyles (names.map f) m (.onElements (els.map f))
+  | .allowStyles names m scope => .allowStyles (names.map f) m scope
+  | op => op
+
+theorem map_lower_respell (f : Bytes → Bytes) (hf : ∀ n, toLowerName (f n) = toLowerName n) (l : List Bytes) :
+    (l.map f).map toLowerName = l.map toLowerName := by
+  simp only [List.map_map]
+  apply List.map_congr_left
+  intro a _
+  exact hf a
+
+theorem respell_ne_nil (f : Bytes → Bytes) (l : List Bytes) : l.map f ≠ [] ↔ l ≠ [] := by
+  cases l <;> simp
+
+/-- what a respelled call contributes is what the call contributes -/
+theorem respell_adds (f : Bytes → Bytes) (hf : ∀ n, toLowerName (f n) = toLowerName n) (op : BuilderOp) :
+    (∀ el attr x, (respell f op).addsElemRule el attr x ↔ op.addsElemRule el attr x) ∧
+    (∀ attr x, (respell f op).addsGlobalRule attr x ↔ op.addsGlobalRule attr x) ∧
+    (∀ el, (respell f op).addsElem el ↔ op.addsElem el) ∧
+    (∀ el prop x, (respell f op).addsElemStyle d el prop x ↔ op.addsElemStyle d el prop x) ∧
+    (∀ prop x, (respell f op).addsGlobalStyle d prop x ↔ op.addsGlobalStyle d prop x) := by
+  have hm := map_lower_respell f hf
+  cases op with
+  | allowElements names =>
+    refine ⟨fun _ _ _ => Iff.rfl, fun _ _ => Iff.rfl, ?_, fun _ _ _ => Iff.rfl, fun _ _ => Iff.rfl⟩
+    intro el; simp only [respell, BuilderOp.addsElem, hm]
+  | allowAttrs names re ae scope =>
+    cases scope with
+    | onElements els =>
+      refine ⟨?_, fun _ _ => Iff.rfl, ?_, fun _ _ _ => Iff.rfl, fun _ _ => Iff.rfl⟩
+      · intro el attr x; simp only [respell, BuilderOp.addsElemRule, hm]
+      · intro el; simp only [respell, BuilderOp.addsElem, hm, respell_ne_nil]
+    | onElementsMatching r => exact ⟨fun _ _ _ => Iff.rfl, fun _ _ => Iff.rfl, fun _ => Iff.rfl, fun _ _ _ => Iff.rfl, fun _ _ => Iff.rfl⟩
+    | globally =>
+      refine ⟨fun _ _ _ => Iff.rfl, ?_, fun _ => Iff.rfl, fun _ _ _ => Iff.rfl, fun _ _ => Iff.rfl⟩
+      intro attr x; simp only [respell, BuilderOp.addsGlobalRule, hm]
+  | allowStyles names m scope =>
+    cases scope with
+    | onElements els =>
+      refine ⟨fun _ _ _ => Iff.rfl, fun _ _ => Iff.rfl, fun _ => Iff.rfl, ?_, fun _ _ => Iff.rfl⟩
+      intro el prop x; simp only [respell, BuilderOp.addsElemStyle, hm]
+    | onElementsMatching r => exact ⟨fun _ _ _ => Iff.rfl, fun _ _ => Iff.rfl, fun _ => Iff.rfl, fun _ _ _ => Iff.rfl, fun _ _ => Iff.rfl⟩
+    | globally =>
+      refine ⟨fun _ _ _ => Iff.rfl, fun _ _ => Iff.rfl, fun _ => Iff.rfl, fun _ _ _ => Iff.rfl, ?_⟩
+      intro prop x; simp only [respell, BuilderOp.addsGlobalStyle, hm]
+  | _ => exact ⟨fun _ _ _ => Iff.rfl, fun _ _ => Iff.rfl, fun _ => Iff.rfl, fun _ _ _ => Iff.rfl, fun _ _ => Iff.rfl⟩
+
+/-- **C17, case independence of the rule tables**: respelling the names of a history by any `f`
+    that `strings.ToLower` cannot tell from the identity (any mixture of upper and lower case)
+    fills the tables with the same rules -/
+theorem C17_case_independent (f : Bytes → Bytes) (hf : ∀ n, toLowerName (f n) = toLowerName n)
+    (p : Policy) (hi : p.initialized = true) (ops : List BuilderOp) :
+    SameTables (applyOps d p (ops.map (respell f))) (applyOps d p ops) := by
+  obtain ⟨a1, g1, e1, s1, t1⟩ := rules_applyOps d p hi (ops.map (respell f))
+  obtain ⟨a2, g2, e2, s2, t2⟩ := rules_applyOps d p hi ops
+  have hex : ∀ (Q Q' : BuilderOp → Prop), (∀ op, Q' (respell f op) ↔ Q op) →
+      ((∃ op ∈ ops.map (respell f), Q' op) ↔ (∃ op ∈ ops, Q op)) := by
+    intro Q Q' hq
+    simp only [List.mem_map]
+    constructor
+    · rintro ⟨_, ⟨op, hm, rfl⟩, h⟩; exact ⟨op, hm, (hq op).mp h⟩
+    · rintro ⟨op, hm, h⟩; exact ⟨_, ⟨op, hm, rfl⟩, (hq op).mpr h⟩
+  constructor
+  · intro el attr x; rw [a1, a2, hex _ _ (fun op => (respell_adds d f hf op).1 el attr x)]
+  · intro attr x; rw [g1, g2, hex _ _ (fun op => (respell_adds d f hf op).2.1 attr x)]
+  · intro el; rw [e1, e2, hex _ _ (fun op => (respell_adds d f hf op).2.2.1 el)]
+  · intro el prop x; rw [s1, s2, hex _ _ (fun op => (respell_adds d f hf op).2.2.2.1 el prop x)]
+  · intro prop x; rw [t1, t2, hex _ _ (fun op => (respell_adds d f hf op).2.2.2.2 prop x)]
+
+/-- `strings.ToLower` cannot tell an ASCII name from its lower-cased spelling: a respelling `f`
+    that satisfies the hypothesis of `C17_case_independent` on ASCII names -/
+theorem toLower_lowerAscii (n : Bytes) (h : n.all (· < 0x80) = true) : toLowerName (lowerAscii n) = toLowerName n := by
+  have h1 : toLowerGo n = lowerAscii n := by simp [toLowerGo, h]
+  have h2 : toLowerGo (lowerAscii n) = lowerAscii n := by
+    simp only [toLowerGo, lowerAscii_ascii n h, ↓reduceIte]
+    exact lowerAscii_idem n
+  simp only [toLowerName, h1, h2]
+
+/-- what the first pass of `sanitizeAttrs` asks of an element's rules, as a statement about the set -/
+theorem accept_iff_mem (aps : AttrRules) (k v : Bytes) :
+    (match aps.get? k with | some apl => attrPoliciesAccept apl v | none => false) = true ↔
+      ∃ ap ∈ rulesOf aps k, (match ap with | none => true | some r => r.test v) = true := by
+  unfold rulesOf
+  cases h : aps.get? k with
+  | none => simp
+  | some apl => simp only [attrPoliciesAccept, List.any_eq_true, Option.getD_some]; exact Iff.rfl
+
+/-- **C17, the filter decision is a function of the contributions**: on an explicitly named
+    element of a policy built by any history from `NewPolicy()`, the first pass accepts attribute
+    `k = v` on element rules iff some `AllowAttrs(… k …)[.Matching(re)].OnElements(… el …)` call of
+    the history — in any position, in any spelling — has no pattern or a pattern matching `v` -/
+theorem C17_accept_iff_contribution (ops : List BuilderOp) (el k v : Bytes) :
+    let p := applyOps d { initialized := true } ops
+    (match Map.get? (rulesOf p.elsAndAttrs el) k with | some apl => attrPoliciesAccept apl v | none => false) = true ↔
+      ∃ op ∈ ops, ∃ ap, op.addsElemRule el k ap ∧ (match ap with | none => true | some r => r.test v) = true := by
+  intro p
+  rw [accept_iff_mem]
+  have h := (rules_applyOps d { initialized := true } rfl ops).1 el k
+  constructor
+  · rintro ⟨ap, hm, hok⟩
+    rcases (h ap).mp hm with h0 | ⟨op, hop, hadd⟩
+    · simp [Policy.elemRules, rulesOf, Map.get?] at h0
+    · exact ⟨op, hop, ap, hadd, hok⟩
+  · rintro ⟨op, hop, ap, hadd, hok⟩
+    exact ⟨ap, (h ap).mpr (.inr ⟨op, hop, hadd⟩), hok⟩
+
+/-- the rules the sanitiser uses for an explicitly named element are that element's entry of the
+    table `C17_rule_tables` speaks about -/
+theorem attrRulesFor_explicit (p : Policy) (el : Bytes) (h : p.hasElem el) :
+    p.attrRulesFor el = some (rulesOf p.elsAndAttrs el) := by
+  unfold Policy.attrRulesFor rulesOf
+  unfold Policy.hasElem at h
+  cases hg : p.elsAndAttrs.get? el with
+  | none => rw [hg] at h; simp at h
+  | some aps => rfl
+
+/-- non-vacuity: two orders and two spellings of one history; the tables agree and hold the rule -/
+example :
+    let d : Bytes → Bytes → Bool := fun _ _ => false
+    let h1 := [BuilderOp.allowAttrs [b!"HREF"] none false (.onElements [b!"A"]), .allowElements [b!"b"]]
+    let h2 := [BuilderOp.allowElements [b!"B"], .allowAttrs [b!"href"] none false (.onElements [b!"a"])]
+    (applyOps d { initialized := true } h1).elemRules b!"a" b!"href" = [none] ∧
+    (applyOps d { initialized := true } h2).elemRules b!"a" b!"href" = [none] ∧
+    (applyOps d { initialized := true } h1).elsAndAttrs.contains b!"b" = true ∧
+    (applyOps d { initialized := true } h2).elsAndAttrs.contains b!"a" = true := by
+  refine ⟨?_, ?_, ?_, ?_⟩ <;> rfl
 
 end BM.Props
